@@ -50,6 +50,9 @@ func runC20(c *Ctx) {
 	c.floor("full-write", 10)
 	c.floor("bounded-attempts", 6)
 	c.floor("failure-cleanup", 4)
+	// the address dialled is the configured one (shared with C19)
+	c19Addresses(c, "dial-errors")
+	c20PoolSend(c, "success-after-write")
 }
 
 // c20Success: with all dispatch sites failing, no nil is returned.
@@ -397,4 +400,43 @@ func c20Failover(c *Ctx) {
 // mustPrecedeOrAbsent: on every entry path to b, either a was executed before or a is not reachable at all afterwards.
 func mustPrecedeOrAbsent(f *ssa.Function, a, b ssa.Instruction) bool {
 	return !canReach(at(b), nil, isInstr(a), nil)
+}
+
+// c20PoolSend: RoundRobinBackend.Send reports what the chosen backend's Send reports: on the dispatch path its result
+// is the result of that very call (a nil from an outer, shadowed variable would report success although nothing was
+// written on any connection).
+func c20PoolSend(c *Ctx, rule string) {
+	w := c.w
+	f := c.fn(rule, "(*RoundRobinBackend).Send")
+	if f == nil {
+		return
+	}
+	var bs ssa.CallInstruction
+	n := 0
+	for _, cs := range w.callsIn(f, "Backend.Send") {
+		bs = cs.In
+		n++
+	}
+	if bs == nil || n != 1 {
+		c.bad(rule, "(*RoundRobinBackend).Send/dispatch", w.pos(f.Pos()), "RoundRobinBackend.Send does not dispatch through exactly one Backend.Send call")
+		return
+	}
+	good := true
+	nr := 0
+	for _, r := range returnsUnder(f, nil) {
+		if !canReach(at(bs), nil, isInstr(r), nil) || !r.Block().Dominates(r.Block()) {
+			continue
+		}
+		// returns reachable after the dispatch without another iteration's dispatch in between
+		if !mustPrecede(f, []ssa.Instruction{bs}, r, nil) {
+			continue
+		}
+		nr++
+		for _, v := range phiLeaves(r.Results[0]) {
+			if !isResultOf(v, bs, 0) {
+				good = false
+			}
+		}
+	}
+	c.check(good && nr > 0, rule, "(*RoundRobinBackend).Send/reports-backend-result", w.ipos(bs), "the pool reports the chosen backend's result", "after dispatching to a backend RoundRobinBackend.Send returns something other than that backend's Send result: a failed send (refused or reset connection) is reported as success although no byte was written anywhere")
 }
